@@ -1,0 +1,29 @@
+// Copyright (c) HashiCorp, Inc.
+// SPDX-License-Identifier: MPL-2.0
+
+//go:build verif
+
+package net
+
+// SimPoint, if set, is called at named scheduling points of
+// MultiplexingListener so that a deterministic simulator can decide which
+// goroutine proceeds. SimSelect resolves the one two-way select whose outcome
+// the Go runtime would otherwise choose at random: returning 1 makes Accept
+// take the context-done branch (one of the select's legal outcomes).
+var (
+	SimPoint  func(l *MultiplexingListener, name string)
+	SimSelect func(l *MultiplexingListener, name string) int
+)
+
+func simPoint(l *MultiplexingListener, name string) {
+	if SimPoint != nil {
+		SimPoint(l, name)
+	}
+}
+
+func simSelect(l *MultiplexingListener, name string) int {
+	if SimSelect != nil {
+		return SimSelect(l, name)
+	}
+	return 0
+}
